@@ -118,9 +118,11 @@ def rule_1(ctx):
 def rule_2(ctx):
     dm = ctx.mod('xlfunctions.date')
     n = 0
+    per_fn = {}
     for name in ('DATE', 'EDATE', 'EOMONTH', 'YEARFRAC'):
         f = _reg(ctx, name)
-        for c in walk_local(f.node):
+        per_fn[name] = 0
+        for c in walk_local(ctx.inl(f.node)):
             if isinstance(c, ast.Compare) and len(c.ops) == 1 and any(
                     ctx.res.resolve(x, dm) == 'pkg:xlfunctions.utils:EXCEL_EPOCH' for x in [c.left, c.comparators[0]]
                     if isinstance(x, (ast.Name, ast.Attribute))):
@@ -128,6 +130,7 @@ def rule_2(ctx):
                 if not (isinstance(st, ast.If) and any(isinstance(r, ast.Raise) for r in st.body)):
                     continue
                 n += 1
+                per_fn[name] += 1
                 epoch_right = ctx.res.resolve(c.comparators[0], dm) == 'pkg:xlfunctions.utils:EXCEL_EPOCH' \
                     if isinstance(c.comparators[0], (ast.Name, ast.Attribute)) else False
                 op = type(c.ops[0])
@@ -173,9 +176,10 @@ def rule_2(ctx):
         else:
             ctx.expect(out.end == 'return' and out.value == year, fn, f'YEAR of a date in {year} is {year}',
                        f'YEAR of a date in {year} gives {out.end} {out.value!r}: every year from 1900 to 9999 must be returned')
-    ctx.floor(10, 'epoch comparisons + YEAR range critical points')
-    if n < 5:
-        ctx.errors.append(f'C18.2: only {n} epoch guards found (DATE, EDATE, EOMONTH, YEARFRAC x2 expected)')
+    ctx.floor(9, 'epoch comparisons + YEAR range critical points')
+    missing = [k for k, v in per_fn.items() if v < 1]
+    if missing:
+        ctx.errors.append(f'C18.2: no epoch guard found in {missing}')
 
 
 NAMED_FIRST = {1: 6, 2: 0, 11: 0, 12: 1, 13: 2, 14: 3, 15: 4, 16: 5, 17: 6}   # python weekday() of the day numbered 1
@@ -230,14 +234,16 @@ TRUNCATING = ('YEAR', 'MONTH', 'DAY', 'WEEKDAY', 'ISOWEEKNUM', 'EDATE', 'EOMONTH
 def rule_4(ctx):
     for name in TRUNCATING:
         f = _reg(ctx, name)
-        calls = [c for c in flow.calls_in(f.node) if ctx.res.resolve(c.func, f.module) == 'pkg:xlfunctions.utils:number_to_datetime']
+        view = ctx.inl(f.node)
+        calls = [c for c in flow.calls_in(view) if ctx.res.resolve(c.func, f.module) == 'pkg:xlfunctions.utils:number_to_datetime']
         if not calls:
             ctx.bad(f.node, f'{name} converts its serial with number_to_datetime', f'{name} no longer converts the serial with number_to_datetime')
             continue
         for c in calls:
             a = c.args[0]
+            vdeps = flow.Deps(view)
             ok = isinstance(a, ast.Call) and isinstance(a.func, ast.Name) and a.func.id == 'int' and len(a.args) == 1 \
-                and isinstance(a.args[0], ast.Name) and a.args[0].id in func_params(f.node)
+                and bool(vdeps.params_reaching(a.args[0]))
             ctx.expect(ok, c, f'{name}: serial truncated with int() before conversion',
                        f'{name} converts `{ast.unparse(a)}` without truncating it to a whole day first: its siblings do, so the '
                        'same serial with a time of day lands on a different date here')
